@@ -306,12 +306,9 @@ int main()
       if (op == "case")
       {
 #ifdef PARALLELIZE
-        // every network owns a pool of worker threads: a network that ended consistently is destroyed (thousands of
-        // leaked pools exhaust the threads a process may have); one that reported an inconsistency is still leaked
-        if (w && !w_dead)
-          w.reset();
-        else
-          w.release();
+        // every network owns a pool of worker threads, so here the networks are destroyed (thousands of leaked pools
+        // exhaust the threads a process may have, and thread_pool's constructor then hangs in ~condition_variable)
+        w.reset();
         w_dead = false;
 #else
         w.release(); // never destroyed (see sat.cpp)
